@@ -184,37 +184,44 @@ Proof.
   exists []. rewrite <- !app_length, !skipn_all. auto.
 Qed.
 
+(* rollover() re-establishes the code-point position on the new file *)
+Lemma ss_rollover_spec f s : SI f s ->
+  SI f (ss_rollover s) /\ same_cfg s (ss_rollover s).
+Proof.
+  intros [V [Ch [T I]]]. unfold ss_rollover. destruct (ss_rolled s).
+  { split; [exact (conj V (conj Ch (conj T I)))|apply same_cfg_refl]. }
+  destruct I as [Ok [K [D [W [LO X]]]]].
+  match goal with |- context [ss_seek_set ?t ?p] =>
+    destruct (ss_seek_set_spec (rf_data f) V t p) as [S1 [S2 S3]] end.
+  - cbn [ss_buf ef_write ef_stream]. rewrite f_write_empty. cbn [rf_data]. exact D.
+  - cbn [ss_buf ef_write ef_rd rd_ok]. exact Ok.
+  - cbn [ss_chunk]. exact Ch.
+  - split.
+    + unfold SI. destruct S3 as [S3 S4]. cbn [ss_chunk ss_max] in S3, S4. rewrite S4, S2.
+      split; [exact V|]. split; [exact Ch|]. split; [exact T|]. rewrite <- T. exact S1.
+    + destruct S3 as [S3 S4]. split; [exact S3|exact S4].
+Qed.
+
 (* write(d) at the end of the data *)
 Lemma ss_write_spec f s d : SI f s -> rf_pos f = length (rf_data f) -> Forall uvalid d ->
   SI (mkRF (rf_data f ++ d) (rf_pos f + length d)) (ss_write s d) /\ same_cfg s (ss_write s d).
 Proof.
-  intros [V [Ch [T I]]] Hend Vd. rewrite Hend, Nat.min_id in I.
-  destruct (RI_at_end _ _ I) as [Pn [Bn Pe]].
-  destruct I as [Ok [K [D [W [LO X]]]]].
-  unfold ss_write.
-  (* whether or not it rolls over, the stream and the (empty) reader buffers are the same *)
-  assert (A : forall s1, (s1 = s \/ s1 = ss_rollover s) ->
-            rf_data (ef_stream (ss_buf s1)) = utf8_enc (rf_data f) /\
-            rf_pos (ef_stream (ss_buf s1)) = length (utf8_enc (rf_data f)) /\
-            pending (ef_rd (ss_buf s1)) = [] /\ rd_bytes (ef_rd (ss_buf s1)) = [] /\
-            rd_ok (ef_rd (ss_buf s1)) = true /\ lines_ok (ef_rd (ss_buf s1)) /\ same_cfg s s1).
-  { assert (A0 : rf_pos (ef_stream (ss_buf s)) = length (utf8_enc (rf_data f))) by (now rewrite <- D).
-    intros s1 [->| ->].
-    - repeat split; auto.
-    - unfold ss_rollover. destruct (ss_rolled s); [repeat split; auto|].
-      cbn [ss_buf ef_seek ef_write ef_stream ef_rd ef_tell].
-      rewrite f_write_empty. unfold f_tell.
-      change (f_seek (f_seek ?x ?o 0) ?o 0) with (f_seek0 (f_seek0 x (rf_pos (ef_stream (ss_buf s)))) (rf_pos (ef_stream (ss_buf s)))).
-      rewrite !f_seek0_eq. cbn [rf_data rf_pos rd_reset rd_bytes rd_ok].
-      unfold pending, lines_ok, same_cfg. cbn. repeat split; auto. }
-  assert (B : forall s1, (s1 = s \/ s1 = ss_rollover s) ->
+  intros I0 Hend Vd.
+  (* whether or not it rolls over, the object stands at the end with empty reader buffers *)
+  assert (B : forall s1, SI f s1 -> same_cfg s s1 -> ss_tell s1 = ss_tell s ->
      SI (mkRF (rf_data f ++ d) (rf_pos f + length d))
         (ss_with s1 (ef_write (ss_buf s1) (utf8_enc d)) (ss_tell s + length d)) /\
      same_cfg s (ss_with s1 (ef_write (ss_buf s1) (utf8_enc d)) (ss_tell s + length d))).
-  { intros s1 H1. destruct (A s1 H1) as [A1 [A2 [A3 [A4 [A5 [A6 [A7 A8]]]]]]].
-    split; [|split; cbn; assumption].
+  { intros s1 [V [Ch [T I]]] Cf Ts. rewrite Hend, Nat.min_id in I.
+    destruct (RI_at_end _ _ I) as [Pn [Bn Pe]].
+    destruct I as [Ok [K [D [W [LO X]]]]].
+    split; [|destruct Cf; split; cbn; assumption].
     unfold SI. cbn [rf_data rf_pos ss_with ss_chunk ss_tell ss_buf].
-    split; [apply Forall_app; auto|]. split; [lia|]. split; [lia|].
-    rewrite Hend, app_length, Nat.min_id. now apply write_RI. }
-  destruct (ss_max s <=? ef_tell (ss_buf s) + length (utf8_enc d)); apply B; auto.
+    split; [apply Forall_app; auto|]. split; [exact Ch|]. split; [lia|].
+    rewrite Hend, app_length, Nat.min_id. apply write_RI; auto. now rewrite <- D. }
+  unfold ss_write.
+  destruct (ss_max s <=? ef_tell (ss_buf s) + length (utf8_enc d)).
+  - destruct (ss_rollover_spec f s I0) as [R1 R2]. apply B; auto.
+    destruct R1 as [_ [_ [T1 _]]]. destruct I0 as [_ [_ [T0 _]]]. congruence.
+  - apply B; auto. apply same_cfg_refl.
 Qed.
